@@ -130,6 +130,10 @@ def gen(seed, tier):
         out.append(f"vander {a} n z0")
         out.append(f"diag {a} n")
         out.append(f"fliplr {a}")
+        # rot90: the argument checks come before the "multiple of four turns" shortcut
+        for k_ in (0, 4, 8, 12, 2, 3):
+            for bad in ([0], [], [0, 1, 2], [0, n], [n, 0], [-n - 1, 0], [0, 2 ** 31], [0, -n - 1]):
+                out.append(f"rot90 {a} z{k_} {lst(bad)}")
         out.append(f"rot90 {a} z1 l0")
         out.append(f"rot90 {a} z1 l0,1,2")
         for name in ("quicksort", "QUICKSORT", "quick", "", "stable!", "mergesort "):
